@@ -1,0 +1,49 @@
+//go:build verif
+
+package bech32
+
+import "github.com/wollac/iota-crypto-demo/pkg/bech32/internal/base32"
+
+// The functions below expose unexported helpers for differential verification runs.
+// They are only compiled with the "verif" build tag.
+
+// Polymod exposes bech32Polymod.
+func Polymod(values []byte) int { return bech32Polymod(values) }
+
+// HrpExpand exposes bech32HrpExpand.
+func HrpExpand(s string) []byte { return bech32HrpExpand(s) }
+
+// CreateChecksum exposes bech32CreateChecksum.
+func CreateChecksum(hrp string, blocks []byte) []byte { return bech32CreateChecksum(hrp, blocks) }
+
+// VerifyChecksum exposes bech32VerifyChecksum.
+func VerifyChecksum(hrp string, data []byte) bool { return bech32VerifyChecksum(hrp, data) }
+
+// CharsetEncode exposes charset.encode.
+func CharsetEncode(src []uint8) string { return charset.encode(src) }
+
+// CharsetDecode exposes charset.decode.
+func CharsetDecode(src string) ([]uint8, error) { return charset.decode(src) }
+
+// NewEncodingTables exposes the two tables newEncoding builds.
+func NewEncodingTables(alphabet string) ([32]byte, [256]uint8) {
+	e := newEncoding(alphabet)
+	return e.enc, e.decMap
+}
+
+// Base32EncodedLen exposes base32.EncodedLen.
+func Base32EncodedLen(n int) int { return base32.EncodedLen(n) }
+
+// Base32DecodedLen exposes base32.DecodedLen.
+func Base32DecodedLen(n int) int { return base32.DecodedLen(n) }
+
+// Base32Encode exposes base32.Encode.
+func Base32Encode(dst []uint8, src []byte) int { return base32.Encode(dst, src) }
+
+// Base32Decode exposes base32.Decode.
+func Base32Decode(dst []byte, src []uint8) (int, error) { return base32.Decode(dst, src) }
+
+// Base32Errors exposes the two error values of base32.
+func Base32Errors() (invalidLength, nonZeroPadding error) {
+	return base32.ErrInvalidLength, base32.ErrNonZeroPadding
+}
